@@ -119,7 +119,9 @@ def takeTail (s : List Char) : Option (Option Syn) :=
   match skipWs s with
   | [] => some none
   | ';' :: r =>
-    match parseText (String.ofList r) with
+    -- the marker recogniser skips leading white space itself; it is dropped here so that the fuel of
+    -- `parseText` is the one `parse_marker` uses on the marker's own text
+    match parseText (String.ofList (skipWs r)) with
     | .ok syn => some (some syn)
     | .error _ => none
   | _ => none
